@@ -8,6 +8,8 @@
      SwapMismatch(x, y)    the ValueError raised by _transferStationaryBlocks when the two assemblies do not
                            carry stationary blocks at the same axial indices (raised before anything changed)
      Cascade(l)            FuelHandler.swapCascade(l) = swapAssemblies(l[0], l[1]); swapAssemblies(l[0], l[2]); ...
+                           An entry may be None (written 0): that level is skipped and the cascade goes on with the
+                           next level; a None in front turns every swap into a logged no-op.
                            A stationary mismatch in the middle aborts the cascade: the swaps already made stay
                            (this is what the code does, and it does not contradict the property), err = "refused".
      DischargeSwap(i, o)   FuelHandler.dischargeSwap(incoming, outgoing)
@@ -22,7 +24,8 @@
 
    Abstract state (what the code keeps, in the code's own redundancy)
      children     Core._children (ordered)                loc[a]    a.spatialLocator as location index, 0 = not in core
-     byLoc[l]     Core.childrenByLocator                   sfp       SpentFuelPool._children (ordered)
+     byLoc[l]     Core.childrenByLocator                   sfp       SpentFuelPool._children (ordered; NP0 assemblies
+                                                                     are pre-loaded, with tracking on and off)
      slot[a]      pool cell, filled col/row-wise by SpentFuelPool._getNextLocation (first free cell)
      fresh        assemblies made but never charged (negative placeholder number, Assembly.__init__)
      purged       assemblies taken out without being kept;  charged = fresh assemblies that entered the core
@@ -63,7 +66,9 @@ EXTENDS Integers, Sequences, FiniteSets, TLC, Json, SequencesExt, FiniteSetsExt
 
 CONSTANTS NL,          \* core locations 1..NL
           NA0,         \* assemblies 1..NA0 are in the core initially
-          NF,          \* assemblies NA0+1..NA0+NF are fresh
+          NP0,         \* assemblies NA0+1..NA0+NP0 sit in the spent-fuel pool initially (a pre-loaded pool is an
+                       \* input of the case, whatever the trackAssems setting)
+          NF,          \* the next NF assemblies are fresh
           MB,          \* maximum number of blocks per assembly
           Layout,      \* [Asm -> Seq(letters)], bottom to top
           Place,       \* [1..NA0 -> Loc], injective
@@ -73,9 +78,10 @@ CONSTANTS NL,          \* core locations 1..NL
           MaxCascade,  \* longest cascade list
           MaxLevel
 
-Asm     == 1..(NA0 + NF)
+Asm     == 1..(NA0 + NP0 + NF)
 Initial == 1..NA0
-Fresh0  == (NA0 + 1)..(NA0 + NF)
+Pooled0 == (NA0 + 1)..(NA0 + NP0)
+Fresh0  == (NA0 + NP0 + 1)..(NA0 + NP0 + NF)
 Loc     == 1..NL
 BlockId(a, k) == (a - 1) * MB + k
 Blk     == {BlockId(a, k) : a \in Asm, k \in 1..MB}
@@ -100,7 +106,7 @@ Pool == Rng(sfp)
 Live == InCore \cup Pool
 OwnerIn(bl, b) == CHOOSE a \in Asm : b \in Rng(bl[a])
 LiveBlk == UNION {Rng(blocks[a]) : a \in Live}
-FirstFree(used) == CHOOSE s \in 1..(NA0 + NF + 1) : s \notin used /\ \A t \in 1..(s - 1) : t \in used
+FirstFree(used) == CHOOSE s \in 1..(NA0 + NP0 + NF + 1) : s \notin used /\ \A t \in 1..(s - 1) : t \in used
 
 \* stationary blocks (FuelHandler._transferStationaryBlocks): the axial indices that carry a block with a stationary flag
 StatPosIn(bl, a) == {k \in 1..Len(bl[a]) : TypeOf(bl[a][k]) \in sflags}
@@ -117,8 +123,11 @@ SwapIn(s, x, y) == [bl |-> ExchangeIn(s.bl, x, y),
                     tb |-> [s.tb EXCEPT ![s.lc[y]] = x, ![s.lc[x]] = y],
                     mv |-> [s.mv EXCEPT ![x] = @ + 1, ![y] = @ + 1]]
 SetShuffle(s) == blocks' = s.bl /\ loc' = s.lc /\ byLoc' = s.tb /\ moves' = s.mv
+\* 0 stands for a None entry (findAssembly found nothing): swapCascade skips a None level and goes on with the next
+\* one ("continue"); a None in front makes every swapAssemblies(None, x) a logged no-op.
 CascadeFold(l) ==
-    FoldLeft(LAMBDA acc, j : IF acc.ok /\ CompatIn(acc.s.bl, l[1], l[j])
+    FoldLeft(LAMBDA acc, j : IF ~acc.ok \/ l[j] = 0 \/ l[1] = 0 THEN acc
+                             ELSE IF CompatIn(acc.s.bl, l[1], l[j])
                              THEN [ok |-> TRUE, s |-> SwapIn(acc.s, l[1], l[j])]
                              ELSE [ok |-> FALSE, s |-> acc.s],
              [ok |-> TRUE, s |-> Cur], [j \in 1..(Len(l) - 1) |-> j + 1])
@@ -150,7 +159,8 @@ SwapMismatch(x, y) ==
     /\ Refuse([n |-> "SwapMismatch", x |-> x, y |-> y])
 
 Cascade(l) ==
-    /\ Go /\ Len(l) >= 2 /\ Rng(l) \subseteq InCore
+    /\ Go /\ Len(l) >= 2 /\ Rng(l) \subseteq InCore \cup {0}
+    /\ \A p, q \in 1..Len(l) : (p # q /\ l[p] # 0) => l[p] # l[q]
     /\ LET r == CascadeFold(l) IN
        /\ SetShuffle(r.s)
        /\ err' = IF r.ok THEN "" ELSE "refused"
@@ -224,20 +234,24 @@ DischargeMismatch(i, o) ==
     /\ Refuse([n |-> "DischargeMismatch", i |-> i, o |-> o])
 
 InjSeqs(S, lo, hi) == UNION {{s \in [1..k -> S] : \A p, q \in 1..k : p # q => s[p] # s[q]} : k \in lo..hi}
+\* cascade lists explored: all lists of distinct assemblies, and the longest ones with one level replaced by None
+CascadeLists(S) == InjSeqs(S, 2, MaxCascade) \cup
+    {[s EXCEPT ![z] = 0] : s \in InjSeqs(S, MaxCascade, MaxCascade), z \in 1..MaxCascade}
 
 InitWith(t, f) ==
     /\ track = t /\ sflags = f
     /\ children = [i \in 1..NA0 |-> i]
     /\ loc = [a \in Asm |-> IF a \in Initial THEN Place[a] ELSE 0]
     /\ byLoc = [l \in Loc |-> IF \E a \in Initial : Place[a] = l THEN CHOOSE a \in Initial : Place[a] = l ELSE 0]
-    /\ sfp = <<>> /\ slot = [a \in Asm |-> 0]
+    /\ sfp = [i \in 1..NP0 |-> NA0 + i]                       \* loaded in order, filling the pool cells in order
+    /\ slot = [a \in Asm |-> IF a \in Pooled0 THEN a - NA0 ELSE 0]
     /\ fresh = Fresh0 /\ purged = {} /\ charged = {}
-    /\ num = [a \in Asm |-> IF a \in Initial THEN a - 1 ELSE -a]
-    /\ nextNum = NA0
+    /\ num = [a \in Asm |-> IF a \in Initial \cup Pooled0 THEN a - 1 ELSE -a]
+    /\ nextNum = NA0 + NP0
     /\ blocks = [a \in Asm |-> Blocks0(a)]
-    /\ bname = [b \in RealBlk |-> <<IF Owner0(b) \in Initial THEN Owner0(b) - 1 ELSE -Owner0(b), Pos0(b) - 1>>]
-    /\ asmTab = {<<a - 1, a>> : a \in Initial}
-    /\ blkTab = {<<Owner0(b) - 1, Pos0(b) - 1, b>> : b \in {c \in RealBlk : Owner0(c) \in Initial}}
+    /\ bname = [b \in RealBlk |-> <<IF Owner0(b) \in Initial \cup Pooled0 THEN Owner0(b) - 1 ELSE -Owner0(b), Pos0(b) - 1>>]
+    /\ asmTab = {<<a - 1, a>> : a \in Initial \cup Pooled0}
+    /\ blkTab = {<<Owner0(b) - 1, Pos0(b) - 1, b>> : b \in {c \in RealBlk : Owner0(c) \in Initial \cup Pooled0}}
     /\ content = [b \in RealBlk |-> b]
     /\ moves = [a \in Asm |-> 0]
     /\ err = "" /\ act = [n |-> "Init"]
@@ -246,7 +260,7 @@ Init == \E t \in TrackSet, f \in SFlagSets : InitWith(t, f)
 Next ==
     \/ \E x, y \in Asm : Swap(x, y)
     \/ \E x, y \in Asm : SwapMismatch(x, y)
-    \/ \E l \in InjSeqs(InCore, 2, MaxCascade) : Cascade(l)
+    \/ \E l \in CascadeLists(InCore) : Cascade(l)
     \/ \E a \in Asm, l \in Loc, how \in {"arg", "own"} : Add(a, l, how)
     \/ \E a \in Asm, l \in Loc : AddOccupied(a, l)
     \/ \E a \in Asm, d \in BOOLEAN : RemoveAsm(a, d)
@@ -260,7 +274,7 @@ NoDup(s) == Len(s) = Cardinality(Rng(s))
 TypeOK ==
     /\ Rng(children) \subseteq Asm /\ Rng(sfp) \subseteq Asm /\ fresh \subseteq Fresh0 /\ purged \subseteq Asm
     /\ \A a \in Asm : loc[a] \in 0..NL /\ Rng(blocks[a]) \subseteq RealBlk
-    /\ \A l \in Loc : byLoc[l] \in 0..(NA0 + NF)
+    /\ \A l \in Loc : byLoc[l] \in 0..(NA0 + NP0 + NF)
 
 \* "the assemblies in the core plus those sent to the pool are exactly the ones that were there or were charged,
 \*  none duplicated or lost"  (purged = deliberately deleted: untracked discharge or discharge=False)
@@ -269,10 +283,10 @@ InventoryNoDuplicates ==
     /\ InCore \cap Pool = {} /\ InCore \cap purged = {} /\ Pool \cap purged = {}
     /\ fresh \cap (InCore \cup Pool \cup purged) = {}
 InventoryExact ==
-    /\ InCore \cup Pool \cup purged = Initial \cup charged
+    /\ InCore \cup Pool \cup purged = Initial \cup Pooled0 \cup charged
     /\ charged = Fresh0 \ fresh
 \* with tracking on, whatever left the core through a discharge is in the pool (nothing is lost)
-PoolKeepsTrackedDischarges == ~track => sfp = <<>>
+PoolKeepsTrackedDischarges == ~track => Pool \subseteq Pooled0      \* untracked: nothing new enters the pool
 
 \* "each core location holds at most one assembly"
 OnePerLocation ==
@@ -315,8 +329,9 @@ Success(n) == act'.n = n /\ err' = ""
 PlacedWhereAsked == [][
     /\ (Success("Swap") => /\ loc'[act'.x] = loc[act'.y] /\ loc'[act'.y] = loc[act'.x]
                            /\ \A a \in Asm \ {act'.x, act'.y} : loc'[a] = loc[a])
-    /\ (Success("Cascade") => LET l == act'.l  m == Len(l) IN      \* documented rotation: everyone takes the place
-                           /\ loc'[l[1]] = loc[l[m]]                \* of its predecessor, the first one goes last
+    /\ (Success("Cascade") => LET l == IF act'.l[1] = 0 THEN <<>> ELSE SelectSeq(act'.l, LAMBDA x : x # 0)
+                                  m == Len(l) IN                  \* documented rotation: everyone takes the place
+                           /\ (m >= 1 => loc'[l[1]] = loc[l[m]])    \* of its predecessor, the first one goes last
                            /\ \A j \in 2..m : loc'[l[j]] = loc[l[j - 1]]
                            /\ \A a \in Asm \ Rng(l) : loc'[a] = loc[a])
     /\ (Success("DischargeSwap") => /\ loc'[act'.i] = loc[act'.o] /\ loc'[act'.o] = 0
@@ -368,5 +383,5 @@ Vars == [children |-> children, loc |-> loc, byLoc |-> byLoc, sfp |-> sfp, slot 
          purged |-> SortedInts(purged), num |-> num, nextNum |-> nextNum, blocks |-> blocks, moves |-> moves,
          bname |-> OverBlk(LAMBDA b : bname[b]), track |-> track,
          sflags |-> [x \in {"F", "G", "P", "S"} |-> x \in sflags]]
-Config == [NL |-> NL, NA0 |-> NA0, NF |-> NF, MB |-> MB, layout |-> Layout, place |-> Place, blk |-> BlkSeq]
+Config == [NL |-> NL, NA0 |-> NA0, NP0 |-> NP0, NF |-> NF, MB |-> MB, layout |-> Layout, place |-> Place, blk |-> BlkSeq]
 ========================================================================================================
